@@ -23,7 +23,7 @@ const c18 = "C18"
 type c18job struct {
 	tree  *gen.Node
 	style uint64
-	kind  int // 0 legal (drawn root constructor), 1 failing pooled use then legal, 2 abandoned pooled writer then legal, 3 owned writer failing + Free then legal
+	kind  int // 0 legal (drawn root constructor), 1 failing pooled use then legal, 2 abandoned pooled writer then legal, 3 owned writer failing + Free then legal, 4 failed pooled program whose handles are used again while a second pooled program is being written
 	want  []byte
 }
 
@@ -54,6 +54,10 @@ func runC18Job(j *c18job) (got []byte, err error) {
 		w := spec.NewWriter()
 		runFailingProgram(w, int(j.style))
 		w.Free()
+	case 4:
+		if e := staleHandlesInterleaved(int(j.style)); e != nil {
+			return nil, e
+		}
 	}
 	x := prog.NewExec(&gen.PRNG{S: j.style})
 	b, _, e := x.Build(j.tree)
@@ -66,6 +70,72 @@ func runC18Job(j *c18job) (got []byte, err error) {
 		return b, fmt.Errorf("read-back: %v", e)
 	}
 	return b, nil
+}
+
+// staleHandlesInterleaved: a program on a pooled writer fails midway and keeps its handles (errors
+// are sticky, a failed program normally still calls End/Build); a second program then acquires a
+// pooled writer and is half written when the first program's handles are used again; the second
+// program is finished afterwards. The failed handles must keep reporting the error and the second
+// program's bytes must be exactly what it wrote.
+func staleHandlesInterleaved(style int) error {
+	m1 := spec.NewMessageWriterBuffer(buffer.New())
+	sub1 := m1.Field(9).List()
+	sub1.Bytes([]byte{1, 2, 3})
+	var ferr error
+	// a field of the parent while the nested list is open (End/Build of the parent would simply end the
+	// innermost open container: that is not an error in this writer)
+	switch style % 3 {
+	case 0:
+		ferr = m1.Field(10).Bool(true)
+	case 1:
+		sub1.Int32(5)
+		ferr = m1.Field(2).String("x")
+	default:
+		ferr = m1.Field(300).Bytes([]byte{9})
+	}
+	if ferr == nil {
+		return fmt.Errorf("misuse of a pooled writer (parent touched while a nested list is open) returned no error")
+	}
+	// second program, pooled writer, half written
+	m2 := spec.NewMessageWriterBuffer(buffer.New())
+	m2.Field(1).Int32(7)
+	l2 := m2.Field(2).List()
+	l2.Int32(1)
+	// the failed program goes on
+	var late []error
+	switch (style / 3) % 4 {
+	case 0:
+		late = append(late, sub1.End(), m1.End())
+	case 1:
+		late = append(late, m1.Field(3).Int64(9), sub1.Int32(4))
+		_, e := m1.Build()
+		late = append(late, e)
+	case 2:
+		late = append(late, sub1.String("zz"), sub1.End(), m1.Field(1).String("x"), m1.End())
+	default:
+		_, e := m1.Build()
+		late = append(late, e, m1.End())
+	}
+	for i, e := range late {
+		if e == nil {
+			return fmt.Errorf("late call %d on a handle of a failed pooled program returned nil (the error must be sticky)", i)
+		}
+	}
+	// the second program is finished
+	l2.Int32(2)
+	if err := l2.End(); err != nil {
+		return fmt.Errorf("second pooled program disturbed by the failed program's handles: list End: %v", err)
+	}
+	m2.Field(3).String("ok")
+	b, err := m2.Build()
+	if err != nil {
+		return fmt.Errorf("second pooled program disturbed by the failed program's handles: Build: %v", err)
+	}
+	want := refcodec.Encode(nil, gen.Message(gen.F(1, gen.Int32(7)), gen.F(2, gen.List(gen.Int32(1), gen.Int32(2))), gen.F(3, gen.String("ok"))))
+	if !bytes.Equal(b, want) {
+		return fmt.Errorf("second pooled program's bytes %x differ from what it wrote (%x): the failed program's handles wrote into it", b, want)
+	}
+	return nil
 }
 
 func TestC18_CodecConcurrent(t *testing.T) {
@@ -86,8 +156,8 @@ func TestC18_CodecConcurrent(t *testing.T) {
 		var hashParts []any
 		for i := 0; i < g; i++ {
 			for k := 0; k < perG; k++ {
-				j := &c18job{tree: trees[rapid.IntRange(0, nTrees-1).Draw(rt, "tree")], style: rapid.Uint64().Draw(rt, "style"), kind: rapid.IntRange(0, 5).Draw(rt, "kind")}
-				if j.kind > 3 {
+				j := &c18job{tree: trees[rapid.IntRange(0, nTrees-1).Draw(rt, "tree")], style: rapid.Uint64().Draw(rt, "style"), kind: rapid.IntRange(0, 6).Draw(rt, "kind")}
+				if j.kind > 4 {
 					j.kind = 0
 				}
 				if j.kind != 0 {
